@@ -4,7 +4,7 @@
 (* them, so every constant is defined here and bound with  Const <- Def.    *)
 EXTENDS Calendar
 
-AllModes == {"cal", "date", "shift", "time", "yf", "frac"}
+AllModes == {"cal", "date", "shift", "time", "yf", "frac", "far"}
 
 \* the calendar machine always runs to Excel's last day
 MCLastSerial == 2958465
@@ -66,4 +66,17 @@ MCFracStarts  == {0, 1, 59, 60, 61, 39844, 43890, 2958465}
 BigFracStarts == MCFracStarts \cup {31, 366, 425, 36585, 39872, 40000, 45351, 73050, 2958101}
 MCFracShiftLo == -30
 MCFracShiftHi == 30
+
+\* far arguments: +-{1, 2, 3, 5, 7} * 10^(0..20) -- 1 .. 20 000 days still carry
+\* into the calendar from a pinned month, 30 000 and more days leave it from
+\* some pins and not from others, 10^7 and more always; the last year, the
+\* last month pin (60: four years beyond 9999) and far negative days meet
+MCFarMants == {1, 2, 3, 5, 7}
+MCFarMaxExp == 20
+MCFarYears == {0, 1900, 2000, 9999}
+BigFarYears == MCFarYears \cup {4, 1899, 1904, 2024, 5000, 9998}
+MCFarPins == {-40, 0, 1, 12, 60}
+BigFarPins == MCFarPins \cup {-1, 2, 13, 31}
+MCFarStarts == {0, 1, 60, 40000, 2958465}
+BigFarStarts == MCFarStarts \cup {59, 61, 36585, 1000000, 2958101}
 =============================================================================
